@@ -293,6 +293,122 @@ def apply_global_rules(body, report, promote_asserts=False, relfile='', base_lin
 # locating things in a source file
 
 
+_CONFIG_CACHE = {}
+
+
+def config_defines(repo):
+    if repo in _CONFIG_CACHE:
+        return _CONFIG_CACHE[repo]
+    here = os.path.dirname(os.path.abspath(__file__))
+    cands = [os.path.join(repo, '_build', 'src', 'Configuration.hpp'),
+             os.path.join(here, '..', 'prelude', 'config_fallback', 'Configuration.hpp')]
+    defs = set()
+    for c in cands:
+        if os.path.exists(c):
+            txt = blank_comments(open(c, errors='replace').read())
+            for m in re.finditer(r'^[ \t]*#[ \t]*define[ \t]+(\w+)', txt, flags=re.M):
+                defs.add(m.group(1))
+            break
+    defs.discard('CONFIGURATION_HPP')
+    _CONFIG_CACHE[repo] = defs
+    return defs
+
+
+COND_RE = re.compile(r'^[ \t]*#[ \t]*(ifdef|ifndef|if|elif|else|endif|define|undef)\b(.*)$')
+
+
+def resolve_conditionals(text, defines):
+    """Blank the inactive branches of #if/#ifdef/#elif/#else/#endif (newlines kept)
+    for conditions of the form defined(X) / !defined(X) / X-is-defined. Conditions that
+    cannot be decided are left in place (both branches kept, directive lines kept) -
+    the extractor refuses a function body that still contains a directive.
+    defines is updated by active #define lines (sequentially, like the preprocessor)."""
+    out = []
+    stack = []  # entries: [parent_active, taken, active, known]
+    def cur_active():
+        return all(e[2] for e in stack)
+    def evalc(expr):
+        e = expr.strip()
+        m = re.match(r'^defined\s*\(\s*(\w+)\s*\)$', e) or re.match(r'^defined\s+(\w+)$', e)
+        if m:
+            return m.group(1) in defines
+        m = re.match(r'^!\s*defined\s*\(\s*(\w+)\s*\)$', e)
+        if m:
+            return m.group(1) not in defines
+        if e in ('0', '1'):
+            return e == '1'
+        return None
+    lines = text.split('\n')
+    i = 0
+    while i < len(lines):
+        ln = lines[i]
+        m = COND_RE.match(ln)
+        if not m:
+            out.append(ln if cur_active() else '')
+            i += 1
+            continue
+        kw, rest = m.group(1), m.group(2)
+        # continuation lines of a directive
+        full = ln
+        n_extra = 0
+        while full.rstrip().endswith('\\') and i + 1 + n_extra < len(lines):
+            n_extra += 1
+            full = full + '\n' + lines[i + n_extra]
+        if kw in ('ifdef', 'ifndef', 'if'):
+            if kw == 'ifdef':
+                v = rest.strip() in defines
+            elif kw == 'ifndef':
+                v = rest.strip() not in defines
+            else:
+                v = evalc(rest)
+            if v is None:
+                stack.append([cur_active(), True, True, False])
+                out.append(ln if cur_active() else '')
+            else:
+                stack.append([cur_active(), v, v, True])
+                out.append('')
+        elif kw == 'elif':
+            e = stack[-1]
+            if not e[3]:
+                out.append(ln if cur_active() else '')
+            else:
+                v = evalc(rest)
+                if v is None:
+                    raise ExtractionError('cannot decide #elif %s' % rest.strip())
+                e[2] = (not e[1]) and v
+                e[1] = e[1] or v
+                out.append('')
+        elif kw == 'else':
+            e = stack[-1]
+            if not e[3]:
+                out.append(ln if cur_active() else '')
+            else:
+                e[2] = not e[1]
+                e[1] = True
+                out.append('')
+        elif kw == 'endif':
+            e = stack.pop()
+            out.append('' if e[3] else (ln if cur_active() else ''))
+        elif kw == 'define':
+            if cur_active():
+                mm = re.match(r'\s*(\w+)', rest)
+                if mm:
+                    defines.add(mm.group(1))
+                out.append(ln)
+            else:
+                out.append('')
+        elif kw == 'undef':
+            if cur_active():
+                defines.discard(rest.strip())
+                out.append(ln)
+            else:
+                out.append('')
+        for k in range(n_extra):
+            out.append(lines[i + 1 + k] if (cur_active() and kw in ('define',)) else '')
+        i += 1 + n_extra
+    return '\n'.join(out)
+
+
 class Source:
     def __init__(self, repo, rel):
         self.rel = rel
@@ -302,6 +418,11 @@ class Source:
         with open(self.path, encoding='utf-8', errors='replace') as f:
             self.raw = f.read()
         self.text = blank_comments(self.raw)
+        # conditional compilation: resolved with the pinned build's Configuration.hpp
+        # and the #defines of the file itself
+        defines = set(config_defines(repo))
+        self.text = resolve_conditionals(self.text, defines)
+        self.defines = defines
 
     def class_span(self, cls):
         m = None
@@ -550,6 +671,7 @@ class Block:
         self.rewrites = []   # (regex, repl, min)
         self.callmap = {}
         self.inlines = []
+        self.sigrewrites = []
         self.contract = []
         self.loops = {}      # ordinal -> lines
         self.loop_lines = {}
@@ -621,6 +743,10 @@ def parse_template(text):
                     raise ExtractionError('template line %d: rewrite needs ==>' % (i + 1))
                 a, b = (rest + ' ').split(' ==> ', 1)
                 cur.rewrites.append((a.strip(), b.strip(), mn))
+                payload = None
+            elif word == 'sigrewrite':
+                a_, b_ = (rest + ' ').split(' ==> ', 1)
+                cur.sigrewrites.append((a_.strip(), b_.strip()))
                 payload = None
             elif word == 'callmap':
                 for kv in rest.split(','):
@@ -763,7 +889,10 @@ class Extractor:
         self.report['members'].append(dict(cls=cls, file=a['file'], names=names, mode=mode))
         if mode == 'struct':
             sname = a.get('struct', cls)
-            return 'struct %s {\n  %s\n};\n' % (sname, '\n  '.join(lines)), names
+            ghost = ''
+            if 'ghost' in a:
+                ghost = '\n  /* ghost fields */ ' + ' '.join(g.strip() + ';' for g in a['ghost'].split(';') if g.strip())
+            return 'struct %s {\n  %s%s\n};\n' % (sname, '\n  '.join(lines), ghost), names
         return '\n'.join(lines) + '\n', names
 
     def _tl(self, line):
@@ -927,6 +1056,8 @@ class Extractor:
         rep['sha256'] = hashlib.sha256(raw_body.encode()).hexdigest()
 
         inner = body[1:-1]
+        if re.search(r'^[ \t]*#[ \t]*(if|ifdef|ifndef|elif|else|endif)\b', inner, flags=re.M):
+            raise ExtractionError('%s: body contains a preprocessor conditional that could not be resolved' % a['cname'])
         if init_stmts:
             inner = ' ' + init_stmts + inner
         # reference parameters
@@ -999,6 +1130,10 @@ class Extractor:
         epi = ''
         if blk.epilogue:
             epi = '\n'.join(blk.epilogue) + '\n'
+        for rx, repl in blk.sigrewrites:
+            sig, k = re.subn(rx, repl, sig)
+            if k == 0:
+                raise ExtractionError('%s: sigrewrite %r did not fire' % (a['cname'], rx))
         out = []
         out.append('/* extracted from %s:%d-%d sha256=%s */' % (a['file'], first_line, last_line, rep['sha256'][:16]))
         out.append(sig)
